@@ -4,6 +4,11 @@ Driver for mapper operation histories (C01, C02, C09, C10, C11 token half).
   mh_begin <oracleMask> <kind> <rIdx> <p4> <seed> <n> (f i v)*  => -
       resets the driver state. Initial physical memory: the P4 frame is all zero, every other word
       is `garbage seed f i`; the `n` listed words override that (recursive slot etc.).
+  mh_mmu <n> (vpage frame isTable info)*  => -
+      software-MMU log of the preceding `mh_op` (recursive mapper only): which physical frame each
+      recursive access really reached. Oracle: every reached frame is a page table of the hierarchy
+      (C09), the address is the recursive address of a table of the page operated on (C20), and
+      `Spec.walk` of the same memory reaches the same frame (cross-check of the software MMU).
   mh_op <opcode> <szcode> <page> <frame> <flags> <pflags> <nalloc> a* <nprobe> va*  =>  <observation>
       observation tokens (all numeric after the markers):
         R <ok|err|panic> …      result (see `fmtRes…`)
@@ -21,6 +26,7 @@ import X86Model.Model.Mapper
 import X86Model.Model.CleanUp
 import X86Model.Spec.Walk
 import X86Model.Spec.Canon
+import X86Model.Spec.Recursive
 
 namespace X86.Driver
 open X86 X86.Spec
@@ -53,6 +59,12 @@ structure MState where
   mm : MemMap := {}          -- model memory (overrides of the initial contents)
   im : MemMap := {}          -- implementation memory, reconstructed from reported changes
   abs : List AbsMap := []
+  -- the last `mh_op` (for `mh_mmu`): implementation memory before it, its page / opcode / probes
+  imPrev : MemMap := {}
+  lastOpcode : Nat := 0
+  lastPage : Nat := 0
+  lastProbes : List Nat := []
+  lastPreTables : List Word := []
 
 def MState.dflt (st : MState) (f : Word) (i : Nat) : Word :=
   if f == st.p4 then 0#64 else garbage st.seed f i
@@ -150,11 +162,20 @@ def sameMapping (a b : Option Xlat) : Bool :=
   | some x, some y => x.base == y.base && x.size == y.size && x.off == y.off && x.flags == y.flags
   | _, _ => false
 
-/-- Frames that are page tables of the hierarchy rooted at `p4` (levels 4..1). -/
+/-- Frames that are page tables of the hierarchy rooted at `p4` (levels 4..1). Each level is capped
+(a pool never has more than a few hundred frames): in a corrupted hierarchy — a table pointer into
+a frame that was never zeroed, where every garbage word looks like a present entry — the
+enumeration would otherwise grow to 512^3 frames and the driver would not terminate in useful time. -/
 def tableFrames (m : PMem) (p4 : Word) : List Word :=
-  let l3 := (List.range 512).filterMap fun i => match slotOf 4 (m p4 i) with | .table t => some t | _ => none
-  let l2 := l3.flatMap fun t => (List.range 512).filterMap fun i => match slotOf 3 (m t i) with | .table t' => some t' | _ => none
-  let l1 := l2.flatMap fun t => (List.range 512).filterMap fun i => match slotOf 2 (m t i) with | .table t' => some t' | _ => none
+  let cap := 512
+  let children (lvl : Nat) (ts : List Word) : List Word :=
+    ts.foldl (fun acc t =>
+      if acc.length ≥ cap then acc
+      else acc ++ ((List.range 512).filterMap fun i =>
+        match slotOf lvl (m t i) with | .table t' => some t' | _ => none)) []
+  let l3 := (children 4 [p4]).take cap
+  let l2 := (children 3 l3).take cap
+  let l1 := (children 2 l2).take cap
   p4 :: (l3 ++ l2 ++ l1)
 
 def outcomeOfMapCode (c : Nat) : DocOutcome :=
@@ -179,6 +200,11 @@ structure Obs where
 def takeTriples : Nat → List Nat → Option (List (Nat × Nat × Nat) × List Nat)
   | 0, l => some ([], l)
   | n + 1, f :: i :: v :: rest => (takeTriples n rest).map fun (ts, r) => ((f, i, v) :: ts, r)
+  | _, _ => none
+
+def takeQuads : Nat → List Nat → Option (List (Nat × Nat × Nat × Nat))
+  | 0, _ => some []
+  | n + 1, a :: b :: c :: d :: rest => (takeQuads n rest).map fun qs => (a, b, c, d) :: qs
   | _, _ => none
 
 def chunk13 (l : List Nat) : List (List Nat) :=
@@ -319,6 +345,13 @@ def handleMapper : SHandler MState := fun _cfg op a impl st =>
           else st.abs
         let allocated : List Word := (allocs.take obs.allocs).filterMap id
         let preTables := tableFrames imPre p4
+        -- recursive mapper: a parent entry created by this call (a link to a table allocated by it,
+        -- on the page's path) carries PRESENT | WRITABLE whatever parent flags were requested
+        -- ("because the design of the recursive page table requires it")
+        let postSlots := parentSlots imPost p4 parents
+        let recLinks := !k.recursive || obs.changes.all (fun (f, i, v) =>
+          !(imPre (w f) i == 0#64 && allocated.contains (tableAddr (w v)) && postSlots.contains (w f, i)) ||
+            (w v &&& 3#64) == 3#64)
         -- C01
         let c01a := probes.all (fun va => walkMatchesAbs imPost p4 abs' va)
         let c01b := (probes.zip obs.probes).all (fun (va, o) => probeMatchesWalk imPost p4 va o)
@@ -336,7 +369,8 @@ def handleMapper : SHandler MState := fun _cfg op a impl st =>
              match walk imPost p4 pageEff with
              | some x => (!(bitRW pflagsEff && bitRW (w flags)) || x.rw) && (!(bitUS pflagsEff && bitUS (w flags)) || x.us)
              | none => false
-           else true)
+           else true) &&
+          recLinks
         -- C02
         let cls := if opcode ≤ 2 then OpClass.map else OpClass.other
         let doc :=
@@ -392,9 +426,55 @@ def handleMapper : SHandler MState := fun _cfg op a impl st =>
           ((st.mask &&& 1 == 0) || c01) && ((st.mask &&& 2 == 0) || c02) &&
           ((st.mask &&& 4 == 0) || c09) && ((st.mask &&& 8 == 0) || c10) &&
           ((st.mask &&& 16 == 0) || (if isOk && opcode ≤ 4 then (obs.res.drop 1).head? == some (toString pageEff) else true))
-        let why := (if (st.mask &&& 1 != 0) && !c01 then s!"C01(a={c01a},b={c01b},nprobe={obs.probes.length}/{probes.length}) " else "") ++ (if (st.mask &&& 2 != 0) && !c02 then "C02 " else "") ++
+        let why := (if (st.mask &&& 1 != 0) && !c01 then s!"C01(a={c01a},b={c01b},reclinks={recLinks},nprobe={obs.probes.length}/{probes.length}) " else "") ++ (if (st.mask &&& 2 != 0) && !c02 then "C02 " else "") ++
           (if (st.mask &&& 4 != 0) && !c09 then "C09 " else "") ++ (if (st.mask &&& 8 != 0) && !c10 then "C10 " else "")
-        some ({ model := model, oracleOk := ok, why := why }, { st with mm := mm', im := im', abs := abs' })
+        some ({ model := model, oracleOk := ok, why := why },
+              { st with mm := mm', im := im', abs := abs', imPrev := st.im, lastOpcode := opcode,
+                        lastPage := pageEff, lastProbes := probes, lastPreTables := preTables })
+    | _ => none
+  | "mh_mmu" =>
+    -- software-MMU log of the last `mh_op` (recursive mapper): n × (vpage frame isTable info),
+    -- info = walk kind (0 four table levels, 1 ended in a huge entry, 2 not present) + 4 × phase
+    -- (0 the operation itself, 1 the probe translations after it)
+    match a.toList with
+    | n :: rest =>
+      match takeQuads n rest with
+      | none => none
+      | some qs =>
+        let p4 := st.p4
+        let imPre : PMem := fun f i => (st.imPrev.get? (f, i)).getD (st.dflt f i)
+        let imPost := st.implMem
+        let preT := st.lastPreTables
+        let postT := tableFrames imPost p4
+        let R := st.rIdx
+        let recPages (va : Nat) : List Nat := [recP4 R, recP3 R va, recP2 R va, recP1 R va]
+        -- the independent walk of the same memory reaches the same frame
+        let agrees (m : PMem) (vpage frame kind : Nat) : Bool :=
+          match walk m p4 vpage with
+          | none => kind == 2
+          | some x => kind != 2 && x.pa == frame && (x.size == 4096) == (kind == 0)
+        let verdicts := qs.map fun (vpage, frame, _isTable, info) =>
+          let kind := info % 4
+          let phase := info / 4
+          -- C09: every recursive access lands in a page table of the hierarchy (before or after the call)
+          let c09 := kind == 0 &&
+            (if phase == 0 then preT.contains (w frame) || postT.contains (w frame) else postT.contains (w frame))
+          -- cross-check of the software MMU against `Spec.walk`
+          let xchk := if phase == 0 then agrees imPre vpage frame kind || agrees imPost vpage frame kind
+                      else agrees imPost vpage frame kind
+          -- C20: the address used is the recursive address of a table on the path of the page operated on
+          let c20 :=
+            if phase == 0 then
+              (if st.lastOpcode ≥ 9 then vpage / 2^39 % 512 == R else (recPages st.lastPage).contains vpage)
+            else st.lastProbes.any (fun va => (recPages va).contains vpage)
+          (c09, xchk, c20)
+        let c09 := verdicts.all (·.1)
+        let xchk := verdicts.all (·.2.1)
+        let c20 := verdicts.all (·.2.2)
+        let ok := ((st.mask &&& 4 == 0) || c09) && xchk && c20
+        let why := (if (st.mask &&& 4 != 0) && !c09 then "C09(recursive access reached a frame that is not a page table) " else "") ++
+          (if !xchk then "MMU-XCHECK " else "") ++ (if !c20 then "C20(recursive address) " else "")
+        some ({ model := impl, oracleOk := ok, why := why }, st)
     | _ => none
   | _ => none
 
